@@ -18,7 +18,7 @@ from fractions import Fraction
 from typing import Dict, Optional, Tuple
 
 from bfsa import constaudit as ca
-from bfsa.guard import disjuncts, dominates, raise_rel, rel, show_rel, unsnap
+from bfsa.guard import atoms, disjuncts, dominates, raise_rel, rel, show_rel, unsnap
 from bfsa.layout import builtin_call, is_call_named, meth_call
 from bfsa.load import AnalysisError, NotConst
 from bfsa.symexec import Exec
@@ -270,10 +270,16 @@ def canon_rules(prog, chk, pid):
                                 "the tested value ranges over %s * p, so it can be a non-zero multiple of p: equal points in different integer representations (negated Y, unreduced sums) are not recognised as equal and the generic formula returns infinity" % iv)
                 elif a[1] in ("Eq", "NotEq") and a[3] is not None:
                     n_tests += 1
+                    vs_zero = any(is_const(unsnap(x)) and cval(unsnap(x)) == 0 for x in (a[2], a[3]))
                     for x in (a[2], a[3]):
                         if is_const(unsnap(x)):
                             continue
                         iv = cn.iv(x)
+                        if vs_zero:
+                            # `x == 0` is the zero test spelled out: exact for values in (-p, p)
+                            chk.require(iv.inside_open_unit(), P("zero-test-canonical"), fi.qualname, "zero test on %s" % show(x, 3), e.where, "the tested value lies in %s * p: it is 0 exactly when it is congruent to 0 modulo p" % iv,
+                                        "the tested value ranges over %s * p, so it can be a non-zero multiple of p" % iv)
+                            continue
                         chk.require(iv.canonical(), P("equality-test-canonical"), fi.qualname, "comparison of %s" % show(x, 3), e.where, "compared value is canonical ([0, p))", "compared value ranges over %s * p: integer equality does not decide congruence" % iv)
         # outputs reduced
         if fname in FORMULAS:
@@ -335,7 +341,43 @@ def sibling_rules(prog, chk, pid):
             targets.append("operand:" + "".join(show(x, 2)[:1] + show(x, 2)[-1:] for x in v.args[0]))
     want = {"_add_with_z_1", "_add_with_z_eq", "_add_with_z2_1", "_add_with_z_ne", "operand:X2Y2Z2", "operand:X1Y1Z1"}
     chk.require(want <= set(targets) and targets.count("_add_with_z2_1") == 2, P("add-dispatch"), fi.qualname, "infinity operands, Z1==Z2==1, Z1==Z2, Z1==1, Z2==1, general", "%s:%d" % (fi.file, fi.lineno), "the dispatcher returns the other operand when one is infinity and selects a variant for every Z shape", "dispatch targets are %s" % targets)
-    # first two guards: not Y1 or not Z1 -> (X2,Y2,Z2)
+    # the two operand shortcuts: operand i is skipped exactly when Yi == 0 or Zi == 0.  Both spellings of infinity occur: (0, 0, 1) from the doubling shortcut and
+    # (X, Y != 0, 0) from the addition formulas for P + (-P) (Z3 carries the factor H = 0); runs of additions without doubling (_mul_precompute) feed either into _add.
+    def truth(r, env):
+        if r[0] == "const":
+            return r[1]
+        if r[0] in ("and", "or"):
+            vs = [truth(x, env) for x in r[1]]
+            return all(vs) if r[0] == "and" else any(vs)
+        if r[0] == "rel":
+            op, a, b = r[1], r[2], r[3]
+            nm = a.args[0] if a.op == "param" else None
+            if op in ("Truthy", "Falsy") and nm in env:
+                return env[nm] if op == "Truthy" else not env[nm]
+            if op in ("Eq", "NotEq") and b is not None:
+                for x, y in ((a, b), (b, a)):
+                    if x.op == "param" and x.args[0] in env and is_const(y) and cval(y) == 0:
+                        return (not env[x.args[0]]) if op == "Eq" else env[x.args[0]]
+        raise AnalysisError("infinity shortcut of _add tests something other than the truth of its Y / Z operands: %r" % (r,))
+    for i, other in ((1, "operand:X2Y2Z2"), (2, "operand:X1Y1Z1")):
+        ok, why = False, "no shortcut returns the other operand"
+        for g in [g for g in res.events if g.kind == "guard" and g.d.get("term") == "return"]:
+            arm = g.d.get("arm")
+            rv = [x for x in res.events if arm and arm[0] <= x.uid < arm[1] and x.kind == "return"]
+            if not rv or unsnap(rv[0].d["value"]).op != "tuple" or "operand:" + "".join(show(x, 2)[:1] + show(x, 2)[-1:] for x in unsnap(rv[0].d["value"]).args[0]) != other:
+                continue
+            r = raise_rel(g)
+            names = {a[2].args[0] for a in atoms(r) if a[2].op == "param"} | {a[3].args[0] for a in atoms(r) if a[3] is not None and a[3].op == "param"}
+            if names - {"Y%d" % i, "Z%d" % i}:
+                ok, why = False, "the shortcut for operand %d tests %s" % (i, sorted(names))
+                break
+            table = {(y, z): truth(r, {"Y%d" % i: y, "Z%d" % i: z}) for y in (True, False) for z in (True, False)}
+            ok = all(table[(y, z)] == (not y or not z) for (y, z) in table)
+            missing = [("Y%d %s 0, Z%d %s 0" % (i, "!=" if y else "==", i, "!=" if z else "==")) for (y, z) in table if table[(y, z)] != (not y or not z)]
+            why = "operand %d is treated wrongly for %s: both encodings of infinity, (0, 0, 1) and (X, Y, 0), reach the dispatcher, and an ordinary point must not be skipped" % (i, "; ".join(missing))
+            break
+        chk.require(ok, P("add-infinity-operand-%d" % i), fi.qualname, "if not Y%d or not Z%d: return the other operand" % (i, i), "%s:%d" % (fi.file, fi.lineno),
+                    "operand %d is recognised as infinity exactly when Y%d = 0 or Z%d = 0" % (i, i, i), why)
     # infinity mapping in the public operations
     for mname in ("double", "__add__", "__mul__", "_mul_precompute", "mul_add"):
         fi = cls.methods[mname]
